@@ -321,11 +321,12 @@ func zzH_C16_abi_block_atomic(t *zzT) {
 		t.Fail("db")
 	}
 	mod := &zz16abiModule{before: t.Bytes("hook.before", 1), after: t.Bytes("hook.after", 1), pattern: []bool{true, false, true, false}}
+	first := 4 // quick tier: two commands that together do every kind of write; thorough: the menu for the first one
+	if t.Param("FULL", 0) == 1 {
+		first = t.Choice("tx0.kind", 6)
+	}
 	for i := 0; i < ntx; i++ {
-		kind := 4 + i // quick tier: two commands that together do every kind of write; thorough: the whole menu
-		if t.Param("FULL", 0) == 1 {
-			kind = t.Choice(t.Name("tx.kind", i), 6)
-		}
+		kind := (first + i) % 6
 		mod.scripts = append(mod.scripts, zz16abiScript{ops: zz16abiScriptOf(t, t.Name("tx", i), kind), fail: t.Bool(t.Name("tx.fail", i))})
 	}
 	a := zz16abiHandler(database, mod)
@@ -532,7 +533,7 @@ func zzH_C16_abi_tx_events_staged(t *zzT) {
 // trace: requests with the old id are refused, and a new context starts from the persisted state.
 // (ExecuteTransaction after Clear: zzH_C16_abi_exec_after_clear.)
 //
-//zz:opt loop=80 require=end,refused
+//zz:opt loop=400 gor=4000 require=end,refused
 func zzH_C16_abi_context_guard(t *zzT) {
 	mod := &zz16abiModule{before: t.Bytes("hook.before", 1), after: t.Bytes("hook.after", 1), pattern: []bool{true, false}}
 	mod.scripts = []zz16abiScript{{ops: zz16abiScriptOf(t, "tx0", 0)}}
@@ -540,6 +541,8 @@ func zzH_C16_abi_context_guard(t *zzT) {
 	if id == nil {
 		return
 	}
+	// a diff record for the block's height (a block being reverted): a Revert that slipped through would find it
+	database.Set(bytes.Join(StateDBPrefixDiff, bytes.FromUint32(2)), (&diffdb.Diff{Added: [][]byte{zz16StateKey(1)}}).Encode())
 	var wrong []byte
 	switch t.Choice("wrong.kind", 3) {
 	case 0:
